@@ -12,7 +12,7 @@ Set Implicit Arguments.
 Unset Strict Implicit.
 Unset Printing Implicit Defensive.
 
-Close Scope Z_scope.
+Local Close Scope Z_scope.
 Local Open Scope ring_scope.
 
 (* ------------------------------------------------------------------ *)
@@ -310,7 +310,7 @@ Theorem mat_apply_mod_undo n m M M' S :
 Proof.
   move=> Hn HM HM' /(mat_mul_mod_eye_iff modulo n M' M Hm Hn HM' HM) H HL HS.
   apply: (mat_apply_mod_undo_crit modulo n m M M' S Hm Hn HM HM' HL HS) => i k Hi Hk.
-  apply: (residue_inverse_undoes m_gt1 modn_cong modn_eq (s := mat_entry m S)) Hi Hk => i' k' Hi' Hk'.
+  apply: (residue_inverse_undoes m_gt1 modn_cong modn_eq (mat_entry m S)) Hi Hk => i' k' Hi' Hk'.
   by rewrite /modn mod_delta; apply: H.
 Qed.
 
